@@ -139,6 +139,15 @@ CLAIMED = {
             "compared with the model's; the oracle checks export-then-import at public level for JSON (curves, surfaces, volumes, containers, trims, delta), smesh, vmesh, txt, csv.",
             "Numbers are abstract tokens: the print/parse round trip is checked only by the float-mode companion at printed precision. Exact mode runs smesh/vmesh natively, txt/csv through an extended float shadow, JSON with dyadic inputs. "
             "YAML / libconfig / Jinja2 skipped (packages missing). Model mirrors the repaired code (F-14a, F-14b fixed by fix: commits after the check reported them with replays)."),
+    'C12': ("7/C12",
+            "The cache-effect table of every public mutator / reader of BSpline/NURBS Curve/Surface/Volume and the multi containers (224 operations, ~980 event paths of clear / write / fill) is REGENERATED from /repo's AST on every run "
+            "by harness/effects.py and re-checked by the Lean kernel (all_paths_ok, decide +kernel): every path of every operation preserves 'no cache is stale' from every abstract state; lifted once and for all to every finite history "
+            "(history_no_stale, induction over the operation list) and shown sound for a concrete field / cache model (history_inv: every non-empty cache equals the fresh value; getter_fresh; eager_kept; copy_inv); a failing table entry has a "
+            "concrete stale witness (failing_path_has_witness). The translator is validated dynamically on every run against traced real objects (every logged event sequence must be an extracted path); a value-level history oracle compares "
+            "every derived view after every step of random histories with a freshly built object in exact arithmetic and checks deep-copy independence; an abstract replay of observed cache states runs through the driver.",
+            "Per-object discipline only: cross-object staleness of containers (F-12b) and in-place emptying of returned lists (F-12c) are open recorded findings seen by the oracle; deep-copy independence is oracle-checked, not proved; exceptions "
+            "inside callees mid-mutator are not modelled; the field / cache vocabulary and 'a fill uses the current fields' are assumptions validated per step by the oracle; trims and expert setters are excluded. F-12a and F-12d were reported "
+            "(failing all_paths_ok naming the operation + a concrete replay) and fixed."),
     'C03': ("7/C03",
             "Lean theorems over the executable model (any degree, any non-decreasing knot function, any parameter, any ordered field): "
             "linear span search returns the unique half-open interval; binary search (termination included) equals linear search under the tolerance hypothesis that F-17b violates (refuted without it by decide +kernel); A2.2 has p+1 non-negative values summing to 1 and equals the Cox-de Boor "
@@ -170,7 +179,7 @@ def main():
         ))
     man = dict(
         version=1,
-        setup_cmd="cd lean && lake build",
+        setup_cmd="/venv/bin/python harness/effects.py /repo --write && cd lean && lake build",
         hooks=dict(guard="GEOMDL_VERIF", enable="none needed: exact arithmetic is injected by the harness (harness/qnum.py); no source hooks",
                    baseline_off_cmd=BASE, source_commits=[], add_only=True),
         engines=[dict(name="lean4+exact-correspondence", path="lean/ harness/ check",
